@@ -43,6 +43,11 @@ ASSUMPTIONS = [
     "local unitaries are the float images of rational Cayley unitaries; closure of the separable class holds for arbitrary local matrices (sep_local_unitary_closed), "
     "so the rotated exact instance is again a mixture of product states; is_separable normalises the trace itself",
     "has_symmetric_extension with ppt=False on two qubits (analytic formula) is exercised on mixtures with >= 2 terms only (pure product states sit exactly on the boundary of the formula)",
+    "known finding c15-is-separable-late-stage is recognised by the traced deciding statement (final `return False` / TypeError in the Breuer-Hall block), only for inputs that are "
+    "separable by construction AND for which none of the independently evaluated sufficient criteria (exact Gurvits-Barnum inequality, operator Schmidt rank <= 2, Johnston's 2xn spectrum "
+    "condition; margins 1e-9 / 1e-13 / 1e-9) holds, or for invariance pairs in which one member is accepted by one of toqito's sound sufficient criteria and the other is decided by that late stage; "
+    "a deciding statement governed by a condition that no labelling rule recognises is reported as 'unrecognised:...' and never folded into a named branch",
+    "soundness of the sufficient criteria named above (Gurvits-Barnum, Cariello, Johnston, Vidal-Tarrach, Horodecki for dA*dB <= 6) is cited, not proved in Lean",
 ]
 MARGIN = 1e-9
 SQRT_EPS = float(np.sqrt(np.finfo(float).eps))
